@@ -44,6 +44,14 @@ def gen_provisions(rng, W, ind, depth, out, provs, used_nums):
             gen_provisions(rng, W, ind + 1, depth + 1, out, provs, sub_used)
         elif r < 0.55:
             out.append('  ' * (ind + 1) + 'CROSSHEADING ' + W.words(1, 2))
+        elif r < 0.70:
+            # footnotes that stay inside the provision: a reference always has its block right after its paragraph (so the nearest
+            # matching block is its own, alone and in context); markers come from a small pool, so other provisions reuse them; and now
+            # and then a block that nothing refers to, which stays behind as ordinary content - alone and in context
+            m = rng.choice(['1', '2', '*'])
+            if rng.random() < 0.7:
+                out.append('  ' * (ind + 1) + W.words(1, 3) + ' {{FOOTNOTE %s}}' % m)
+            out.append('  ' * (ind + 1) + 'FOOTNOTE ' + m); out.append('  ' * (ind + 2) + W.words(1, 3))
         else:
             # a block that really is a child of this provision: first line at the child's indentation,
             # and none of the constructs that carry document-wide state
@@ -73,7 +81,7 @@ def _oracle(args):
     rng = random.Random(seed)
     lines, provs = gen_case(rng)
     text = '\n'.join(lines) + '\n'
-    if 'FOOTNOTE' in text or 'QUOTE' in text:
+    if 'QUOTE' in text:
         return ('skip', None, 0)
     p = impl.parser(prefix)
     try:
